@@ -364,7 +364,7 @@ impl HistMonitor for C18 {
     fn after(&mut self, s: &mut Session, op: &Op, o: &mut Outcome, ctx: &mut Ctx) -> Option<String> {
         self.since += 1;
         let collected = matches!(op, Op::Data(_)) && o.keys_after.len() < o.keys_before.len();
-        if self.since < 8 && !collected {
+        if self.since < 8 && !collected && o.panic.is_none() {
             return None;
         }
         self.since = 0;
@@ -377,7 +377,7 @@ impl HistMonitor for C18 {
     fn nontrivial(&self, _c: &HistStats) -> bool {
         self.qualified
     }
-    fn owns_panic(&self, op: &Op) -> bool {
+    fn examines_panic_itself(&self, op: &Op) -> bool {
         matches!(op, Op::Export)
     }
 }
@@ -635,11 +635,12 @@ impl HistMonitor for C20 {
     fn after(&mut self, s: &mut Session, op: &Op, o: &mut Outcome, ctx: &mut Ctx) -> Option<String> {
         self.since += 1;
         let collected = matches!(op, Op::Data(_)) && o.keys_after.len() < o.keys_before.len();
-        if self.since < 8 && !collected {
+        if self.since < 8 && !collected && o.panic.is_none() {
             return None;
         }
         self.since = 0;
-        self.check(s, ctx, false)
+        // after a panicking export: every start vertex, so that the panicking inspect() is found
+        self.check(s, ctx, o.panic.is_some())
     }
     fn finish(&mut self, s: &mut Session, ctx: &mut Ctx) -> Option<String> {
         self.check(s, ctx, true)
@@ -647,7 +648,7 @@ impl HistMonitor for C20 {
     fn nontrivial(&self, _c: &HistStats) -> bool {
         self.qualified
     }
-    fn owns_panic(&self, op: &Op) -> bool {
+    fn examines_panic_itself(&self, op: &Op) -> bool {
         matches!(op, Op::Export)
     }
 }
